@@ -279,3 +279,11 @@ Proof.
   pose proof (len_str_trunc (s_desc s) MAX_RDM_STRING_LENGTH).
   unfold MAX_RDM_STRING_LENGTH, MAX_PDL in *. lia.
 Qed.
+
+(* DimmerRootDevice::SetDmxBlockAddress is all-or-nothing: a NACK leaves every sub-device alone *)
+Lemma set_dmx_block_address_ok q l : wf_cc q -> good q l (set_dmx_block_address q l).
+Proof.
+  intros W. unfold set_dmx_block_address. ext 2%nat q; [nk|].
+  destruct ((v <? 1) || (Z.of_N DMX_MAX_SLOT_VALUE <? Z.of_N v + Z.of_N (sum_fp l 0) - 1)%Z); [nk|].
+  change (get_response_from_data q [] RDM_ACK 0) with (ack q [] 0). ak.
+Qed.
